@@ -211,6 +211,28 @@ def check_pair(acc, pn, P, cn, C, default=OMIT):
     if default is not OMIT:
         acc.count("pairs.default_none." + ("accepted" if accepted else "rejected"))
         return
+    # a pair that check_types refuses is refused when it arrives as a plugin (registration), whatever its Plugin flags say
+    if not accepted and hash((pn, cn)) % 6 == 0:
+        from metador_core.plugin.util import register_in_group
+        from metador_core.plugins import schemas
+        from metador_core.schema import MetadataSchema
+        for aux in (False, True):
+            _ctr[0] += 1
+            nm = f"c13.reg{acc.shard}x{_ctr[0]}"
+            try:
+                ParR = type(MetadataSchema)(f"ParR{_ctr[0]}", (MetadataSchema,), {"__annotations__": {"f": P}, "__module__": __name__})
+                PB = type("Plugin", (), {"name": nm, "version": (0, 1, 0), "auxiliary": aux})
+                ChiR = type(MetadataSchema)(f"ChiR{_ctr[0]}", (ParR,), {"Plugin": PB, "__annotations__": {"f": C}, "__module__": __name__})
+            except Exception:
+                break
+            acc.count("refused_pairs_registered")
+            try:
+                register_in_group(schemas, ChiR, violently=True)
+            except (TypeError, ValueError):
+                continue
+            acc.violation(f"unsound-override-registered:{pn}<-{cn}", f"the pair {pn} <- {cn} is refused by check_types, but a plugin with that override (auxiliary={aux}) "
+                                                                    f"is registered without complaint", {"parent": pn, "child": cn})
+            break
     # declared override must be accepted regardless
     if not accepted and pn != cn and not any(b in pn or b in cn for b in INVALID_ON_OWN):
         # (a pair involving a nested class that is invalid on its own is rightly refused whatever is declared for f)
@@ -358,7 +380,7 @@ def run_unit(u, acc):
 
 def inconclusive(cov):
     c = cov["counters"]
-    return [f"monitor counter {k} is zero" for k in ("pairs.accepted", "pairs.rejected", "values_checked", "ancestor_parses", "extra_policy_checks", "declared_overrides_accepted", "chains.mandatory.accepted", "chains.mandatory.rejected", "chains.reannotate.rejected",
+    return [f"monitor counter {k} is zero" for k in ("pairs.accepted", "pairs.rejected", "values_checked", "ancestor_parses", "extra_policy_checks", "refused_pairs_registered", "declared_overrides_accepted", "chains.mandatory.accepted", "chains.mandatory.rejected", "chains.reannotate.rejected",
                                                         "chains.inherit-outer-plugins.accepted", "chains.inherit-outer-plugins.rejected", "chains.inherit-all-plugins.rejected", "chains.inherit-no-plugins.rejected") if not c.get(k)]
 
 
